@@ -41,3 +41,328 @@ def yaml_str(s):
             out.append(ch)
     out.append('"')
     return "".join(out)
+
+
+# ---------------------------------------------------------------------------------------
+# configurations
+
+def yaml_doc(obj):
+    """render a config dict as YAML (flow/JSON style; yaml.v3 reads it through the normal path)"""
+    if obj is None:
+        return "null"
+    if obj is True:
+        return "true"
+    if obj is False:
+        return "false"
+    if isinstance(obj, Raw):
+        return obj.text
+    if isinstance(obj, (int,)):
+        return str(obj)
+    if isinstance(obj, float):
+        return repr(obj)
+    if isinstance(obj, str):
+        return yaml_str(obj)
+    if isinstance(obj, (list, tuple)):
+        return "[" + ", ".join(yaml_doc(x) for x in obj) + "]"
+    if isinstance(obj, dict):
+        return "{" + ", ".join(yaml_str(k) + ": " + yaml_doc(v) for k, v in obj.items()) + "}"
+    raise TypeError(type(obj))
+
+
+class Raw:
+    """verbatim YAML text (e.g. `.inf`, `1e400`, `0x10`)"""
+    def __init__(self, text):
+        self.text = text
+
+    def __repr__(self):
+        return "Raw(%r)" % self.text
+
+
+FX = "probe/fx"          # fixture package import path
+FX2 = "probe/fx2/pkg"    # second fixture package with identical symbols
+
+SVC_NAMES = ["a", "b.c", "d-e", "f_g", "h1", "svc.db", "svc.log", "x.y-z", "k9", "mailer"]
+PARAM_NAMES = ["p", "q.r", "host", "port", "s-t", "u_v", "n1", "name", "flag", "ratio"]
+TAG_NAMES = ["t", "u.v", "w-x", "y_z"]
+GETTERS = ["GetA", "Db", "Logger", "GetX1", "Mailer", "Svc", "GetFoo", "GetBar", "Q", "R2"]
+
+
+def gen_literal(rng):
+    k = rng.randrange(9)
+    if k == 0:
+        return rng.choice([0, 1, -1, 42, -7, 2**31, -2**63, 2**63 - 1])
+    if k == 1:
+        return rng.choice([2**63, 2**64 - 1, 2**63 + 5])
+    if k == 2:
+        return rng.choice([1.5, -0.25, 3.0, 1e21, 1e-7, 123456789.125])
+    if k == 3:
+        return rng.choice([True, False])
+    if k == 4:
+        return None
+    if k == 5:
+        return rng.choice(["", "hello", "a b", "x\"y", "back\\slash", "new\nline", "é𝄞", "tab\t", "100%%", "%%", "a%%b"])
+    if k == 6:
+        return rng.choice(["plain", "v1.2.3", "-", "~", "null", "true", "1"])
+    if k == 7:
+        return rng.choice(["%%%%", "50%% off", "%%x%%"])
+    return rng.choice([7, "seven", 7.5])
+
+
+def gen_arg(rng, params, services, tags, allow=("lit", "param", "multi", "svc", "tagged", "value", "gontainer", "fn"), imp="fx"):
+    k = rng.choice(allow)
+    if k == "param" and params:
+        return "%" + rng.choice(params) + "%"
+    if k == "multi" and params:
+        return rng.choice(["pre-", "", "a%%"]) + "%" + rng.choice(params) + "%" + rng.choice(["", ":", "-post", "%%"]) + (("%" + rng.choice(params) + "%") if rng.random() < 0.4 else "")
+    if k == "svc" and services:
+        return "@" + rng.choice(services)
+    if k == "tagged" and tags:
+        return "!tagged " + rng.choice(tags)
+    if k == "value":
+        return "!value " + rng.choice([imp + ".Global", "&" + imp + ".GlobalVal", imp + ".Obj{}", "&" + imp + ".Obj{}", imp + ".ID", '"%s".Global' % FX, '"%s".Global.Ctor' % FX])
+    if k == "gontainer":
+        return "$gontainer"
+    if k == "fn":
+        return rng.choice(['%env("VERIF_A")%', '%env("VERIF_MISSING", "dflt")%', '%envInt("VERIF_N")%', '%envInt("VERIF_MISSING", 5)%', 'x%env("VERIF_A")%y'])
+    return gen_literal(rng)
+
+
+def gen_config(rng, nsvc=None, nparams=None, valid=True, imp="fx", scopes=True, todo=True):
+    """a mostly-valid configuration over the fixture universe (symbols exist, DAG of dependencies)"""
+    nsvc = rng.randint(1, 6) if nsvc is None else nsvc
+    nparams = rng.randint(0, 5) if nparams is None else nparams
+    pnames = rng.sample(PARAM_NAMES, nparams)
+    params = {}
+    for i, n in enumerate(pnames):
+        prev = pnames[:i]
+        r = rng.random()
+        if r < 0.45 or not prev:
+            params[n] = gen_literal(rng)
+        elif r < 0.75:
+            params[n] = gen_arg(rng, prev, [], [], allow=("param", "multi"))
+        elif r < 0.9:
+            params[n] = gen_arg(rng, prev, [], [], allow=("fn",))
+        else:
+            params[n] = '%todo()%' if todo else 1
+    snames = rng.sample(SVC_NAMES, nsvc)
+    tags_used = []
+    services = {}
+    getters = rng.sample(GETTERS, nsvc)
+    base = []  # services without tags / tagged deps: decorators may depend on them
+    requested = set()  # tags already requested with !tagged: later services must not carry them
+    for i, n in enumerate(snames):
+        prev = snames[:i]
+        s = {}
+        if todo and rng.random() < 0.08:
+            services[n] = {"todo": True}
+            continue
+        prev_live = [p for p in prev if not services[p].get("todo")]
+        own_tags = []
+        if rng.random() < 0.4:
+            cand = [t for t in TAG_NAMES if t not in requested]
+            own_tags = rng.sample(cand, min(len(cand), rng.randint(1, 2)))
+        avail_tags = sorted({t if isinstance(t, str) else t["name"] for p in prev_live for t in services[p].get("tags", [])} - set(own_tags))
+        allow = ["lit", "lit", "param", "multi", "svc", "svc", "tagged", "value", "gontainer", "fn"]
+        form = rng.choice(["ctor", "ctor", "ctor", "ctorerr", "value", "type", "ctorval"])
+        valtype = False
+        if form in ("ctor", "ctorerr", "ctorval"):
+            s["constructor"] = imp + "." + {"ctor": rng.choice(["NewA", "NewC"]), "ctorerr": "NewB", "ctorval": "NewVal"}[form]
+            if rng.random() < 0.2:
+                s["constructor"] = '"%s".%s' % (FX, s["constructor"].split(".")[-1])
+            s["arguments"] = [gen_arg(rng, pnames, prev_live, avail_tags, allow) for _ in range(rng.randint(0, 3))]
+            valtype = form == "ctorval"
+        elif form == "value":
+            v = rng.choice(["Global", "&GlobalVal", "Obj{}", "&Obj{}"])
+            s["value"] = (v[0] if v[0] == "&" else "") + imp + "." + v.lstrip("&")
+            valtype = v == "Obj{}"
+        else:
+            valtype = rng.random() < 0.3
+            s["type"] = ("" if valtype else "*") + imp + ".Obj"
+        if rng.random() < 0.5:
+            s["getter"] = getters[i]
+            r = rng.random()
+            if r < 0.5:
+                s["type"] = ("" if valtype else "*") + imp + ".Obj"
+            if rng.random() < 0.4:
+                s["must_getter"] = rng.random() < 0.7
+        if not valtype:
+            if rng.random() < 0.4:
+                s["calls"] = []
+                for _ in range(rng.randint(1, 3)):
+                    w = rng.random() < 0.35
+                    c = [("With%d" if w else "Call%d") % rng.randint(1, 2), [gen_arg(rng, pnames, prev_live, avail_tags, allow) for _ in range(rng.randint(0, 2))]]
+                    if w or rng.random() < 0.2:
+                        c.append(w)
+                    s["calls"].append(c)
+            if rng.random() < 0.35:
+                s["fields"] = {f: gen_arg(rng, pnames, prev_live, avail_tags, allow) for f in rng.sample(["F1", "F2"], rng.randint(1, 2))}
+        if own_tags:
+            s["tags"] = [t if rng.random() < 0.5 else {"name": t, "priority": rng.choice([0, 1, -1, 5, 5, 100, -100])} for t in own_tags]
+        for a in _all_args(s):
+            if isinstance(a, str) and a.startswith("!tagged"):
+                requested.add(a.split()[-1])
+        if scopes and rng.random() < 0.35:
+            s["scope"] = rng.choice(["shared", "contextual", "non_shared"])
+        if "tags" not in s and not any(isinstance(a, str) and a.startswith("!tagged") for a in _all_args(s)):
+            base.append(n)
+        services[n] = s
+    decorators = []
+    all_tags = sorted({t if isinstance(t, str) else t["name"] for s in services.values() for t in s.get("tags", [])})
+    # decorators may only depend on base services that do not (transitively) reach a tagged service
+    safe = [b for b in base if _reach_ok(b, services)]
+    if all_tags and rng.random() < 0.6:
+        for _ in range(rng.randint(1, 3)):
+            decorators.append({"tag": rng.choice(all_tags + ["*"] if False else all_tags), "decorator": imp + ".Dec%d" % rng.randint(1, 2),
+                               "arguments": [gen_arg(rng, pnames, safe, [], ["lit", "param", "svc", "value"]) for _ in range(rng.randint(0, 2))]})
+    cfg = {}
+    m = {}
+    if rng.random() < 0.5:
+        m["pkg"] = rng.choice(["main", "gen", "mypkg"])
+    if rng.random() < 0.3:
+        m["container_type"] = rng.choice(["Gontainer", "MyContainer", "c1"])
+    if rng.random() < 0.3:
+        m["container_constructor"] = rng.choice(["NewGontainer", "New", "Build"])
+    if rng.random() < 0.4:
+        m["default_must_getter"] = rng.random() < 0.6
+    m["imports"] = {"fx": FX}
+    if imp != "fx":
+        m["imports"][imp] = FX
+    if rng.random() < 0.3:
+        m["imports"]["other"] = FX2
+    if rng.random() < 0.3:
+        m["functions"] = {"myfn": imp + ".Fn1"}
+    cfg["meta"] = m
+    if params:
+        cfg["parameters"] = params
+    cfg["services"] = services
+    if decorators:
+        cfg["decorators"] = decorators
+    _repair_scopes(cfg)
+    return cfg
+
+
+def _all_args(s):
+    out = list(s.get("arguments", []))
+    for c in s.get("calls", []):
+        out += c[1] if len(c) > 1 else []
+    out += list(s.get("fields", {}).values())
+    return out
+
+
+def _reach_ok(b, services):
+    seen, todo = set(), [b]
+    while todo:
+        x = todo.pop()
+        if x in seen or x not in services:
+            continue
+        seen.add(x)
+        s = services[x]
+        if s.get("tags"):
+            return False
+        for a in _all_args(s):
+            if isinstance(a, str) and a.startswith("!tagged"):
+                return False
+            if isinstance(a, str) and a.startswith("@"):
+                todo.append(a[1:])
+    return True
+
+
+def dep_closure(cfg):
+    """independent (Python) oracle: transitive service dependencies of every service, through
+    arguments, fields, calls, requested tags → carriers, carried tags → decorator dependencies"""
+    services = cfg.get("services", {})
+    decs = cfg.get("decorators", [])
+    def tags_of(s):
+        return [t if isinstance(t, str) else t.get("name") for t in s.get("tags", [])]
+    def direct(args):
+        svc, tg = [], []
+        for a in args:
+            if isinstance(a, str) and a.startswith("@"):
+                svc.append(a[1:])
+            elif isinstance(a, str) and a.startswith("!tagged"):
+                tg.append(a.split()[-1])
+        return svc, tg
+    edges = {}
+    for n, s in services.items():
+        if s.get("todo"):
+            edges[n] = set()
+            continue
+        svc, tg = direct(_all_args(s))
+        for t in tags_of(s):
+            for d in decs:
+                if d.get("tag") == t:
+                    s2, t2 = direct(d.get("arguments", []))
+                    svc += s2
+                    tg += t2
+        out = set(svc)
+        for t in tg:
+            out |= {m for m, s2 in services.items() if not s2.get("todo") and t in tags_of(s2)}
+        edges[n] = out
+    # tags requested by decorators resolved above (one level); iterate to closure on services
+    clo = {}
+    for n in services:
+        seen, todo = set(), list(edges.get(n, ()))
+        while todo:
+            x = todo.pop()
+            if x in seen:
+                continue
+            seen.add(x)
+            todo += list(edges.get(x, ()))
+        clo[n] = seen
+    return clo
+
+
+def _repair_scopes(cfg):
+    clo = dep_closure(cfg)
+    sv = cfg["services"]
+    for n, s in sv.items():
+        if s.get("scope") == "shared" and any(sv.get(d, {}).get("scope") == "contextual" for d in clo[n]):
+            del s["scope"]
+
+
+def split_config(rng, cfg, nfiles):
+    """distribute a configuration over files in a way the documented merge rules reassemble"""
+    import copy
+    files = [dict() for _ in range(nfiles)]
+    def put(i, path, value):
+        d = files[i]
+        for k in path[:-1]:
+            d = d.setdefault(k, {})
+        d[path[-1]] = value
+    for k, v in cfg.get("meta", {}).items():
+        if isinstance(v, dict):
+            for kk, vv in v.items():
+                put(rng.randrange(nfiles), ["meta", k, kk], vv)
+        else:
+            put(rng.randrange(nfiles), ["meta", k], v)
+    for k, v in cfg.get("parameters", {}).items():
+        put(rng.randrange(nfiles), ["parameters", k], v)
+    for n, s in cfg.get("services", {}).items():
+        if rng.random() < 0.5 or s.get("todo"):
+            put(rng.randrange(nfiles), ["services", n], copy.deepcopy(s))
+            continue
+        for a, v in s.items():
+            if a in ("calls", "tags") and len(v) > 1:
+                cut = rng.randint(0, len(v))
+                i, j = sorted([rng.randrange(nfiles), rng.randrange(nfiles)])
+                if i == j:
+                    put(i, ["services", n, a], v)
+                else:
+                    if v[:cut]:
+                        put(i, ["services", n, a], v[:cut])
+                    if v[cut:]:
+                        put(j, ["services", n, a], v[cut:])
+            elif a == "fields":
+                for f, fv in v.items():
+                    put(rng.randrange(nfiles), ["services", n, "fields", f], fv)
+            else:
+                put(rng.randrange(nfiles), ["services", n, a], v)
+    decs = cfg.get("decorators", [])
+    if decs:
+        cuts = sorted(rng.randint(0, len(decs)) for _ in range(nfiles - 1))
+        bounds = [0] + cuts + [len(decs)]
+        for i in range(nfiles):
+            part = decs[bounds[i]:bounds[i + 1]]
+            if part:
+                files[i]["decorators"] = part
+    return files
